@@ -276,7 +276,7 @@ def _chain(ex, *its):
 
 def _isinstance(ex, o, cls):
     cl = list(cls) if isinstance(cls, tuple) else [cls]
-    names = [c.name for c in cl]
+    names = [c.name if hasattr(c, "name") else next((k for k, v in BUILTINS.items() if v is c), "?") for c in cl]
     if hasattr(o, "sym_isinstance"):
         return o.sym_isinstance(ex, names)
     if isinstance(o, SRef):
